@@ -116,10 +116,12 @@ func c17(c *Ctx) {
 		"PHONE_MIGRATE_ row is Int; every panic-capable operation reachable from RpcErrorToNative / tryToProcessErr is discharged by a guard, by a table " +
 		"condition, or reported; the structured error's fields come from the server's code, the normalised name and the parsed parameter; an unknown data " +
 		"centre yields an error, a known one stores the address and reconnects before the request is re-issued."
-	r.NotDecided = []string{"delivery of the error to the right caller (C09)", "that the reconnect after PHONE_MIGRATE succeeds (network)"}
+	r.NotDecided = []string{"delivery of the error to the right caller beyond the registration order (C09)", "that the reconnect after PHONE_MIGRATE succeeds (network)"}
 	r.Rule("R17.T", "prefix/suffix table ⊆ catalogue, one verb per parametrised text, kinds ⊆ {Int,String}, unambiguous, PHONE_MIGRATE_ is Int", 16)
 	r.Rule("R17.P", "every panic-capable operation reachable from RpcErrorToNative / tryToProcessErr / the error arm of makeRequest is discharged, accepted under a checked table condition, or a finding", 3)
 	r.Rule("R17.F", "field provenance of ErrResponseCode: Code ← ErrorCode, Message ← normalised name, AdditionalInfo ← parsed parameter; RpcErrorToNative returns *ErrResponseCode on every path", 4)
+	r.Rule("R17.D", "the rpc_error finds its caller: the waiter is registered under the request's id before the request is written (= C09 R09.O), so an error answered at once is not dropped as 'not found'", 1)
+	c.registerBeforeWrite("R17.D")
 	r.Rule("R17.M", "PHONE_MIGRATE_X: unknown DC → error; known DC → address stored, Reconnect, request re-issued", 3)
 	tr := an.NewTracer()
 	pk := c.P.Pkg(load.RootMod)
@@ -201,7 +203,7 @@ func c17(c *Ctx) {
 			for _, in := range b.Instrs {
 				if ret, ok := in.(*ssa.Return); ok && len(ret.Results) == 1 {
 					nRet++
-					if !strings.HasPrefix(tr.OriginString(ret.Results[0]), "alloc:mtproto.ErrResponseCode") {
+					if !strings.HasPrefix(tr.OriginString(an.RetVal(ret, 0)), "alloc:mtproto.ErrResponseCode") {
 						allPtr = false
 					}
 				}
@@ -243,7 +245,7 @@ func c17(c *Ctx) {
 		for _, b := range expand.Blocks {
 			for _, in := range b.Instrs {
 				if ret, ok := in.(*ssa.Return); ok && len(ret.Results) == 2 {
-					o0, o1 := tr.OriginString(ret.Results[0]), tr.OriginString(ret.Results[1])
+					o0, o1 := tr.OriginString(an.RetVal(ret, 0)), tr.OriginString(an.RetVal(ret, 1))
 					if strings.Contains(o0, `+ const:"X")`) && strings.Contains(o0, "prefixSuffix.prefix") && strings.Contains(o0, "prefixSuffix.suffix") {
 						okName = true
 					}
@@ -299,7 +301,7 @@ func c17(c *Ctx) {
 			missB, hitB := found.EdgeWhen(false).To(), found.EdgeWhen(true).To()
 			errOK := false
 			for _, in := range missB.Instrs {
-				if ret, ok := in.(*ssa.Return); ok && len(ret.Results) == 1 && !an.IsNilConst(ret.Results[0]) {
+				if ret, ok := in.(*ssa.Return); ok && len(ret.Results) == 1 && !an.IsNilConst(an.RetVal(ret, 0)) {
 					errOK = true
 				}
 			}
@@ -335,7 +337,7 @@ func c17(c *Ctx) {
 					seen[b] = true
 					if ret, ok := b.Instrs[len(b.Instrs)-1].(*ssa.Return); ok && len(ret.Results) == 1 {
 						nRet++
-						v := ret.Results[0]
+						v := an.RetVal(ret, 0)
 						if phi, isPhi := v.(*ssa.Phi); isPhi {
 							for _, e := range phi.Edges {
 								if e != rc && !an.IsNilConst(e) {
@@ -432,7 +434,7 @@ func freshMap(v ssa.Value, depth int, why *string) bool {
 			for _, b := range g.Blocks {
 				if ret, ok := b.Instrs[len(b.Instrs)-1].(*ssa.Return); ok {
 					n++
-					if !freshMap(ret.Results[0], depth+1, why) {
+					if !freshMap(an.RetVal(ret, 0), depth+1, why) {
 						return false
 					}
 				}
